@@ -139,6 +139,187 @@ def same(xs, ys, tol, scale):
 
 
 # ---------------------------------------------------------------------------------------------
+# element-internal state: recursive snapshot of the element and everything it owns
+
+import hashlib
+import types
+
+# attribute names of memo cells / scratch buffers per family; overwritten at run time by what the Lean
+# model declares (`C06 internal NAME`), see `load_internal_declarations`
+INTERNAL_FAMILIES = ('stateless', 'agnosticInstance', 'propagator', 'mirrorSurface', 'layerScreen', 'fourierObject', 'modulatedPyramid')
+DECLARED = {
+    'stateless': ((), ()),
+    'agnosticInstance': (('_instance_data_cache', '_num_in_cache'), ()),
+    'propagator': (('_instance_data_cache', '_num_in_cache'), ()),
+    'mirrorSurface': (('_surface', '_actuators_for_cached_surface'), ()),
+    'layerScreen': (('_achromatic_screen',), ()),
+    'fourierObject': (('M', 'M1', 'M2', 'weights_input', 'weights_output', 'matrices_dtype', 'intermediate_dtype',
+                       '_transfer_function', 'internal_array', 'intermediate_array'), ('internal_array', 'intermediate_array')),
+    'modulatedPyramid': (('tip_tilt_mirror',), ()),
+}
+
+
+def internal_family(obj):
+    """Which program with element-internal cells (Model/Elements.lean) describes the object owning an attribute."""
+    import hcipy
+    mod = type(obj).__module__ or ''
+    if mod.startswith('hcipy.fourier'):
+        return 'fourierObject'
+    if isinstance(obj, hcipy.ModulatedPyramidWavefrontSensorOptics):
+        return 'modulatedPyramid'
+    if isinstance(obj, hcipy.DeformableMirror):
+        return 'mirrorSurface'
+    if isinstance(obj, hcipy.AtmosphericLayer):
+        return 'layerScreen'
+    if isinstance(obj, (hcipy.FraunhoferPropagator, hcipy.FresnelPropagator, hcipy.AngularSpectrumPropagator)):
+        return 'propagator'
+    if isinstance(obj, hcipy.AgnosticOpticalElement):
+        return 'agnosticInstance'
+    return 'stateless'
+
+
+def _digest(b):
+    return hashlib.blake2b(b, digest_size=12).digest()
+
+
+def state_snapshot(el):
+    """path -> (object, digest, owners, is_array). `owners` = ((family, class name, attribute), ...) for every attribute
+    step of the path. The objects are kept alive by the snapshot so that identity comparisons are meaningful."""
+    import hcipy
+    import scipy.sparse
+    out = {}
+    seen = {}
+
+    def walk(obj, path, owners, depth):
+        if isinstance(obj, np.ndarray):
+            out[path] = (obj, (str(obj.dtype), obj.shape, _digest(np.ascontiguousarray(obj).tobytes())), owners, True)
+            return
+        if obj is None or isinstance(obj, (bool, int, float, complex, str, bytes, np.generic)):
+            out[path] = (obj, repr(obj), owners, False)
+            return
+        if isinstance(obj, (types.FunctionType, types.MethodType, types.BuiltinFunctionType, type, types.ModuleType)):
+            out[path] = (obj, 'callable', owners, False)
+            return
+        if scipy.sparse.issparse(obj):
+            out[path] = (obj, ('sparse', obj.shape, _digest(np.ascontiguousarray(obj.data).tobytes())), owners, True)
+            return
+        if isinstance(obj, hcipy.Grid):
+            out[path] = (obj, ('grid', _digest(grid_bytes(obj))), owners, True)
+            return
+        if isinstance(obj, np.random.Generator):
+            out[path] = (obj, repr(obj.bit_generator.state), owners, True)
+            return
+        if id(obj) in seen or depth > 14:
+            out[path] = (obj, ('ref', id(obj)), owners, False)
+            return
+        seen[id(obj)] = obj
+        if isinstance(obj, dict):
+            out[path + '#keys'] = (obj, repr(list(obj.keys())), owners, False)
+            for k, v in obj.items():
+                walk(v, '%s[%r]' % (path, k), owners, depth + 1)
+            return
+        if isinstance(obj, (list, tuple)):
+            out[path + '#len'] = (obj, len(obj), owners, False)
+            for i, v in enumerate(obj):
+                walk(v, '%s[%d]' % (path, i), owners, depth + 1)
+            return
+        d = getattr(obj, '__dict__', None)
+        if not isinstance(d, dict):
+            out[path] = (obj, 'opaque:' + type(obj).__name__, owners, False)
+            return
+        out[path + '#attrs'] = (obj, tuple(sorted(d.keys())), owners, False)
+        fam = internal_family(obj)
+        cname = type(obj).__name__
+        for k, v in list(d.items()):
+            walk(v, path + '.' + k, owners + ((fam, cname, k),), depth + 1)
+
+    with warnings.catch_warnings():
+        warnings.simplefilter('ignore')
+        walk(el, 'el', (), 0)
+    return out
+
+
+def load_internal_declarations(ctx):
+    """Ask the model which attributes each family's program with element-internal cells declares as memo cells /
+    scratch buffers (and that the checker accepts the program); the classification of observed changes uses these."""
+    answers = ctx.model(['C06 internal ' + f for f in INTERNAL_FAMILIES])
+    for fam, ans in zip(INTERNAL_FAMILIES, answers):
+        toks = ans.split(' ')
+        if len(toks) != 4 or toks[0] != 'ok' or not toks[2].startswith('memo=') or not toks[3].startswith('scratch='):
+            raise MachineryError('unexpected answer to C06 internal %s: %r' % (fam, ans))
+        if toks[1] != 'safe=1':
+            ctx.disagree('C06 internal', {'family': fam, 'model': ans, 'note': 'program not accepted by safeInternal'})
+        memo = tuple(t for t in toks[2][5:].split(',') if t != '-')
+        scratch = tuple(t for t in toks[3][8:].split(',') if t != '-')
+        DECLARED[fam] = (memo, scratch)
+    ctx.extra['internal_declared'] = {f: {'memo': list(DECLARED[f][0]), 'scratch': list(DECLARED[f][1])} for f in INTERNAL_FAMILIES}
+
+
+def state_diff(a, b):
+    """[(kind, path, owners, is_array)], kind in created / deleted / inplace / rebound / rebound-same."""
+    res = []
+    for path in sorted(set(a) | set(b)):
+        if path not in a:
+            res.append(('created', path) + b[path][2:])
+            continue
+        if path not in b:
+            res.append(('deleted', path) + a[path][2:])
+            continue
+        (oa, da, _, _), (ob, db, ow, arr) = a[path], b[path]
+        if oa is ob:
+            if da != db:
+                res.append(('inplace', path, ow, arr))
+        elif da != db:
+            res.append(('rebound', path, ow, arr))
+        elif arr:
+            res.append(('rebound-same', path, ow, arr))
+    return res
+
+
+def classify_change(kind, path, owners, is_array):
+    """-> (verdict, cell) with verdict in 'scratch' | 'memo' | 'mutated' | 'undeclared';
+    cell = 'OwnerClass.attr' of the declared cell (or of the leaf)."""
+    leaf = owners[-1] if owners else ('stateless', '?', path)
+    if leaf[2] in DECLARED.get(leaf[0], ((), ()))[1]:
+        return 'scratch', '%s.%s' % (leaf[1], leaf[2])
+    for fam, cname, attr in owners:
+        if attr in DECLARED.get(fam, ((), ()))[0]:
+            if kind == 'inplace' and is_array:
+                # the bytes of an existing array changed: not a fill (a fill stores a new value under its key)
+                return 'mutated', '%s.%s' % (cname, attr)
+            return 'memo', '%s.%s' % (cname, attr)
+    if kind == 'inplace' and is_array:
+        return 'mutated', '%s.%s' % (leaf[1], leaf[2])
+    if path.endswith('#attrs'):
+        return 'attrs', '%s' % (leaf[1] if owners else 'element')
+    return 'undeclared', '%s.%s' % (leaf[1], leaf[2])
+
+
+SKIP_IN_FRESH_COMPARISON = ('#keys', '#attrs', '#len')
+
+
+def compare_with_fresh(used, fresh):
+    """Paths of the fresh element's state (after the last call alone) whose value differs in the used element."""
+    bad = []
+    for path, (obj, dig, owners, arr) in fresh.items():
+        if path.endswith(SKIP_IN_FRESH_COMPARISON) or not owners:
+            continue
+        leaf = owners[-1]
+        if leaf[2] in DECLARED.get(leaf[0], ((), ()))[1] or leaf[2] == '_num_in_cache':
+            continue
+        if isinstance(dig, tuple) and dig and dig[0] == 'ref':
+            continue
+        if dig == 'callable' or (isinstance(dig, str) and dig.startswith('opaque:')):
+            continue
+        if path not in used:
+            bad.append(('missing', path, owners))
+        elif used[path][1] != dig:
+            bad.append(('differs', path, owners))
+    return bad
+
+
+
+# ---------------------------------------------------------------------------------------------
 # one case of the oracle
 
 def case_rng(case):
@@ -153,7 +334,7 @@ def find_entry(case):
     raise MachineryError('registry has no entry %r' % case['entry'])
 
 
-def run_case(entry, el, case, fresh_el=None):
+def run_case(entry, el, case, fresh_el=None, track=False):
     """Evaluate the clauses of C06 on one (element, kind, direction, wavelength, random fields).
     Returns (bad, obs): bad = list of (key, what); obs = observations for the model correspondence."""
     kind, direction, wl = case['kind'], case['direction'], case['wavelength']
@@ -180,7 +361,29 @@ def run_case(entry, el, case, fresh_el=None):
     def fail(clause, what):
         bad.append(('%s %s' % (clause, tag), '%s: %s [%s, wavelength %g]' % (clause, what, entry.name, wl)))
 
+    def state_check(diff, stage):
+        """Judge the changes of the element's own state over one call."""
+        seen_cells = obs.setdefault('internal', set())
+        for ckind, path, owners, arr in diff:
+            verdict, cell = classify_change(ckind, path, owners, arr)
+            if verdict == 'mutated':
+                bad.append(('internal-state-mutated %s %s' % (cname, cell),
+                            'internal-state-mutated: %s modified %s in place (%s; same array object, different bytes), which is not a '
+                            'memo fill nor a declared scratch buffer [%s, %s %s, wavelength %g]' % (direction, path, stage, entry.name, direction, kind, wl)))
+            elif verdict == 'memo' and stage == 'second identical call' and ckind != 'rebound-same':
+                bad.append(('internal-state-drifts %s %s' % (cname, cell),
+                            'internal-state-drifts: the memo cell %s changed (%s) during a second identical call: its content is not a '
+                            'function of (parameters, key) [%s, %s %s, wavelength %g]' % (path, ckind, entry.name, direction, kind, wl)))
+            if verdict in ('memo', 'scratch', 'undeclared', 'mutated'):
+                fam = owners[-1][0] if owners else 'stateless'
+                for f_, c_, a_ in owners:
+                    if a_ in DECLARED.get(f_, ((), ()))[0]:
+                        fam = f_
+                        break
+                seen_cells.add((verdict, fam, cell, ckind))
+
     # (i) input intact + first result
+    s0 = state_snapshot(el) if track else None
     before = snapshot(wf1, E1)
     trace = []
     try:
@@ -195,8 +398,11 @@ def run_case(entry, el, case, fresh_el=None):
         fail('input-modified:' + k, 'the wavefront passed to %s was changed (%s)' % (direction, k))
     if not np.array_equal(np.asarray(E1), E1_keep):
         fail('input-modified:field-values', 'the Field the wavefront was built from was changed')
+    if track:
+        s1 = state_snapshot(el)
+        state_check(state_diff(s0, s1), 'first call of the case')
     if bad:
-        # the later clauses would run on a corrupted input: report the modification alone
+        # the later clauses would run on a corrupted input / element: report the modification alone
         return bad, obs
     obs['trace'] = list(trace)
     obs['ret_is_input'] = int(any(o is wf1 for o in outs1))
@@ -219,6 +425,9 @@ def run_case(entry, el, case, fresh_el=None):
             fail('repeat', 'the same call returned a different result the second time (max diff %.3g)' % w)
         if not np.array_equal(np.asarray(wf1.electric_field), E1_keep):
             fail('input-modified:field-values', 'second call changed the input field')
+        if track:
+            s2 = state_snapshot(el)
+            state_check(state_diff(s1, s2), 'second identical call')
         outs2, _ = call(el, direction, wf2)
         o2 = out_arrays(outs2)
         ok, w = same(o1, out_arrays(outs1), 0.0, 0.0)
@@ -229,7 +438,15 @@ def run_case(entry, el, case, fresh_el=None):
         if not ok or out_meta(outs1c) != m1:
             fail('history', 'result changed after a call with a different wavefront in between (max diff %.3g)' % w)
         if fresh_el is not None:
+            s_used = state_snapshot(el) if track else None
             outsf, _ = call(fresh_el, direction, wf1)
+            if track:
+                for what_, path, owners in compare_with_fresh(s_used, state_snapshot(fresh_el)):
+                    leaf = owners[-1]
+                    bad.append(('internal-state-history %s %s.%s' % (cname, leaf[1], leaf[2]),
+                                'internal-state-history: after the call sequence %s of the element %s what a fresh element holds after '
+                                'the last call alone [%s, %s %s, wavelength %g]' % (path, 'is missing from' if what_ == 'missing' else 'differs from',
+                                                                                      entry.name, direction, kind, wl)))
             ok, w = same(o1, out_arrays(outsf), TOL_REP, scale1)
             if not ok or out_meta(outsf) != m1:
                 fail('fresh-element', 'a freshly constructed element returns a different result (max diff %.3g)' % w)
@@ -799,10 +1016,20 @@ def run(ctx):
                 '(1..9e-13; every structure is run at least once with a ratio <= 2^-17, either term may be the faint one). '
                 'Rule: max|f(aE1+E2) - a f(E1) - f(E2)| <= 1e-6*min(|a f(E1)|, |f(E2)|) + 1e-13*max(|a f(E1)|, |f(E2)|, g*(|a||E1|+|E2|)) '
                 'in max norms, g = largest |f(E)|/|E| seen for that element/direction/kind (>= 1): the residual is judged '
-                'against the SMALLER term, the second summand is the float64 rounding floor of the whole computation; f(0) must be exactly 0.')
+                'against the SMALLER term, the second summand is the float64 rounding floor of the whole computation; f(0) must be exactly 0. '
+                'ELEMENT-INTERNAL STATE (round-0 cases): recursive snapshot (every ndarray / sparse matrix / grid / RNG state / scalar '
+                'reachable through __dict__, dicts, lists of the element and the objects it owns; array bytes hashed, objects kept alive '
+                'for identity) before the first call, after it, after a second identical call, and after the whole call sequence; a change '
+                'is a memo fill (attribute created or rebound under a cell the model declares for the owning object\'s family), a scratch '
+                'write (declared buffer), or: same array object with different bytes outside scratch -> internal-state-mutated; a memo '
+                'cell whose value changes during the second identical call -> internal-state-drifts; any value that differs from what a '
+                'fresh element holds after the last call alone -> internal-state-history; a change under no declared cell -> disagreement '
+                'with the model (C06 internal).')
     ctx.assumptions += ['element-internal caches are exercised behaviourally only (C05 models them)',
                         'float arithmetic on the generated dyadic fields (a*E1+E2) is exact',
                         'sub-propagators probed as dense matrices are linear (checked by their own registry entries)']
+    load_internal_declarations(ctx)
+    internal_seen = {}
     registries, cases = plan(ctx)
     entries = registries[0]
     by_name = {(k, e.name): e for k, ents in enumerate(registries) for e in ents}
@@ -850,9 +1077,19 @@ def run(ctx):
         if fkey not in fresh_done:
             fresh_done.add(fkey)
             fresh = e.factory()
-        bad, obs = run_case(e, el, case, fresh)
+        bad, obs = run_case(e, el, case, fresh, track=fresh is not None)
         for key, what in bad:
             ctx.violation(key, what, case)
+        for verdict, fam, cell, ckind in sorted(obs.get('internal', ())):
+            k = '%s %s %s (%s)' % (verdict, fam, cell, ckind)
+            internal_seen[k] = internal_seen.get(k, 0) + 1
+            ctx.traces_validated += 1
+            if verdict == 'undeclared':
+                ctx.disagree('C06 internal', {'case': {q: case[q] for q in ('entry', 'kind', 'direction', 'wavelength')},
+                                              'impl': 'attribute %s changed (%s) during a call' % (cell, ckind),
+                                              'model': 'family %s declares memo=%s scratch=%s' % (fam, list(DECLARED.get(fam, ((), ()))[0]), list(DECLARED.get(fam, ((), ()))[1]))})
+        if fresh is not None:
+            ctx.count('state-tracked-cases')
         ctx.count('kind:' + case['kind'])
         ctx.count('direction:' + case['direction'])
         ctx.count('family:' + e.family)
@@ -887,6 +1124,7 @@ def run(ctx):
                 heavy_budget -= 1
             requests.append(('C06 denote %s @ %s' % (term, clist(obs['in'])), 'denote', (case, obs, e)))
             ctx.count('denote-family:' + e.family)
+    ctx.extra['internal_cells_seen'] = internal_seen
     if not requests:
         return
     answers = ctx.model([r[0] for r in requests])
@@ -916,15 +1154,30 @@ def run(ctx):
                                             'scale': maxabs(got)})
 
 
+def warm_up(e, el, case):
+    """Give the element of a replay the kind of history it had in the run: one call per direction x kind x
+    wavelength (in the run the element is shared by all cases of its registry entry)."""
+    rng = np.random.default_rng(list(case['data_seed']) + [99])
+    for direction in ('forward', 'backward'):
+        grid = e.input_grid if direction == 'forward' else e.output_grid
+        for kind in (e.kinds if direction == 'forward' else e.backward_kinds):
+            for wl in e.wavelengths:
+                try:
+                    call(el, direction, make_wf(registry.make_field(rng, grid, kind), kind, wl, registry.STOKES[0]))
+                except Exception:       # noqa
+                    pass
+
+
 def replay(ctx, case):
     e = find_entry(case)
     el = e.factory()
+    warm_up(e, el, case)
     if case.get('mode') == 'wide':
         bad, _ = run_wide(e, el, case, {})
         for key, what in bad:
             print('  fails:', key, '-', what)
         return not bad
-    bad, _ = run_case(e, el, case, e.factory())
+    bad, _ = run_case(e, el, case, e.factory(), track=True)
     for key, what in bad:
         print('  fails:', key, '-', what)
     return not bad
